@@ -107,8 +107,8 @@ CHECKS = {
          "The trash is modelled by exact spelling (d1 and D1 lie side by side; an older database of the same spelling is pushed aside and not expected back). Crash model: the rename of a directory is one journal transaction (old place or new place, never both or neither).",
          "deterministic simulation: seeded drop/create/undrop/purge/restart orders with crash images inside the directory moves, SQL-level fingerprint oracle", "DESIGN.md §6.3 C47, §11 2026-09-22", "dsim-sql"),
  "C08": ("exploration",
-         "A repository history is built through SQL behind the production engine (commits, second table, branch with working-set-only rows, tag, deleted branch, stash, in-progress conflicted merge, staged and unstaged rows; drawn per run); then CALL dolt_gc (default / --full / --archive-level 0, once or twice, session-aware safepoint controller) runs as one task of the seeded S1 scheduler, parked before BeginGC, every MarkAndSweepChunks, every SaveHashes, Finalize, AddChunksToStore, SwapChunksInStore, EndGC and PruneTableFiles, while 1-3 writer sessions (transactions opened before the collection and committed during or after it) run statements in between. Afterwards and again after a clean restart: the SQL fingerprint of everything the writers do not touch is unchanged; every row whose commit was acknowledged is present; no writer statement failed for a non-transactional reason; a walk from the store root over every reference reads every chunk with bytes that hash to its address.",
-         "Writers run whole statements between scheduling points (a statement blocked by the collection lets the collector go on). Interactive rebase / revert / cherry-pick state and statistics refs are not part of the generated histories. The yield points sit in a wrapper around the ValueStore's chunk store installed through the overlay's white-box accessor; no dolt code is changed.",
+         "A repository history is built through SQL behind the production engine (commits, second table, branch with working-set-only rows, tag, deleted branch, stash, in-progress conflicted merge / cherry-pick / revert, an interactive rebase left unfinished, staged and unstaged rows, data kept alive only by a tag or only by the staged root after an earlier collection; drawn per run); then CALL dolt_gc (default / --full / --archive-level 0, once or twice, session-aware safepoint controller) runs as one task of the seeded S1 scheduler, parked before BeginGC, every MarkAndSweepChunks, every SaveHashes, Finalize, AddChunksToStore, SwapChunksInStore, EndGC and PruneTableFiles, while 1-3 writer sessions (transactions opened before the collection and committed during or after it) run statements in between. Afterwards and again after a clean restart: the SQL fingerprint of everything the writers do not touch is unchanged; every row whose commit was acknowledged is present; no writer statement failed for a non-transactional reason; a walk from the store root over every reference reads every chunk with bytes that hash to its address.",
+         "Writers run whole statements between scheduling points (a statement blocked by the collection lets the collector go on). The statistics ref lives in the separate statistics store, which dolt_gc of the database does not collect; it is not part of the histories. In a quarter of the runs the collection runs alone and the server dies in it (crash images). The yield points sit in a wrapper around the ValueStore's chunk store installed through the overlay's white-box accessor; no dolt code is changed.",
          "deterministic simulation: seeded S1 scheduler over GC phases x writer statements, fingerprint + acknowledged-write + reference-walk oracles, clean restart", "DESIGN.md §6.3 C08", "dsim-sql"),
  "C35": ("exploration",
          "Two databases of one production SQL engine (the second a clone of the first) exchange commits through one remote: a file remote (file-manifest store) or an HTTP remote (the real remotesrv gRPC service + HTTP file handler + sealer behind the simulated network, the real remotestorage client). Part 1, seeded step sequences: commits on several branches of both sides (divergent histories, same-key edits, destinations that already hold part of the data), dolt_push (also --force, of tags, deleting a remote branch), dolt_fetch, dolt_pull, dolt_clone, dolt_backup sync / restore, engine and remote-server restarts, table-file size drawn per run so that a transfer is one or many files; transfers are disturbed by EIO at a chosen file operation on the destination, a disk that stays dead, lost / duplicated / truncated network exchanges, and process death at structural file-operation positions inside the transfer (crash images of the destination under three persistence variants, re-opened by the real code). After every step a walk from the root of every store must read every chunk with bytes that hash to its address; the remote's branches must be exactly where the acknowledged pushes put them; a non-fast-forward push without --force must be refused; fetched / cloned tracking refs equal the remote's heads; a pulled branch contains the remote's head and its own old head. Part 2, seeded S1 schedules: 2-3 sessions commit and push main without --force concurrently, parked before the remote store's Root / Rebase / Commit / AddTableFilesToManifest (file remote) or before every unary RPC and upload (HTTP remote): every acknowledged push must be contained in the remote's final head.",
